@@ -802,6 +802,9 @@ def garbage_segments(n, rng):
         # a request for somebody else whose Destination-Host / Destination-Realm is not even text
         "misaddressed-not-utf8-host": n.make("MIS", True, 1).dump().replace(b"other.host.example", b"\xfc" * 18),
         "misaddressed-not-utf8-realm": n.make("MIS", True, 1).dump().replace(b"elsewhere.example", b"\xff\xfe" + b"x" * 15),
+        # well-formed base messages whose Origin-Host / Origin-Realm is not text (DiameterIdentity is an OctetString on the wire)
+        "dwr-origin-host-not-utf8": n.make("DWR", True, 1).dump().replace(n.peer[0].encode(), b"\xff" * len(n.peer[0])),
+        "cex-origin-realm-not-utf8": n.make("CER" if n.role == "server" else "CEA", True, 1).dump().replace(n.peer[1].encode(), b"\xfe" * len(n.peer[1])),
         "bad-utf8-uri": wrap((292).to_bytes(4, "big") + b"\x40" + (14).to_bytes(3, "big") + b"aaa:\xff\xfe\0\0"),
         "random": bytes(rng.getrandbits(8) for _ in range(rng.choice([1, 19, 20, 33, 64]))),
         "garbage-then-good": bytes([1, 0, 0, 24, 0x80, 0, 1, 60]) + bytes(12) + b"\xde\xad\xbe\xef" + good,
@@ -876,7 +879,7 @@ def run_garbage(seed, role, state, kind):
 def check_garbage(rep):
     rng = random.Random(rep.seed * 7919 + 33)
     kinds = ["length0", "length19", "short-header", "truncated", "avp-length-too-big", "avp-length-zero", "u32-five-bytes", "unknown-enumerator",
-             "misaddressed", "misaddressed-not-utf8-host", "misaddressed-not-utf8-realm", "bad-utf8-uri", "random", "garbage-then-good"]
+             "misaddressed", "misaddressed-not-utf8-host", "misaddressed-not-utf8-realm", "dwr-origin-host-not-utf8", "cex-origin-realm-not-utf8", "bad-utf8-uri", "random", "garbage-then-good"]
     cases = [("client", "open"), ("server", "open"), ("client", "wait-cea"), ("server", "before-cer"), ("client", "closing")]
     reps = 1 if rep.tier == "quick" else 10
     n = 0
